@@ -796,9 +796,8 @@ static double get_entropy(const double temperature, const double f,
     if (classical) {
         return KB - KB * log(f / (KB * temperature));
     } else {
-        val = f / (2 * KB * temperature);
-        return 1 / (2 * temperature) * f * cosh(val) / sinh(val) -
-               KB * log(2 * sinh(val));
+        val = exp(-f / (KB * temperature));
+        return f / temperature * val / (1 - val) - KB * log(1 - val);
     }
 }
 
@@ -812,8 +811,8 @@ static double get_heat_capacity(const double temperature, const double f,
         return KB;
     } else {
         val = f / (KB * temperature);
-        val1 = exp(val);
-        val2 = (val) / (val1 - 1);
+        val1 = exp(-val);
+        val2 = (val) / (1 - val1);
         return KB * val1 * val2 * val2;
     }
 }
